@@ -65,6 +65,9 @@ def run_wire(ctx, gens, nquick, nthorough, nloop, design_cfg=None):
 
 
 def run_C01(ctx):
+    # messages that are not flat (sub-messages, repeated and map fields, oneofs): same content on the other side
+    from . import p_scalars
+    p_scalars.scalars(ctx, {"nested_e2e"}, [])
     return run_wire(ctx, ["C01"], 8000, 150000, 300)
 
 
